@@ -51,6 +51,22 @@ def check(rep, tier, seed, replay):
     for S, C, h, l, how in (th_cfgs if tier == "thorough" else rng.sample(th_cfgs, min(8, len(th_cfgs)))):
         for t in THREADS:
             th_lines.append(f"treethreads {t} {S} {C} {h} {l}")
+    # every pool size 1..16 on the smallest trees (each top-level fan-out width: 8 second
+    # instructions for 2x2, 12 for 3x2 / 2x3), where a run costs nothing
+    for S, C, h, l, how in [c for c in cfgs if c[4] == "list" and (c[0], c[1]) in ((2, 2), (3, 2), (2, 3))][:: (1 if tier == "thorough" else 2)]:
+        for t in range(1, 17):
+            tl = f"treethreads {t} {S} {C} {h} {l}"
+            if tl not in th_lines:
+                th_lines.append(tl)
+    # ... and on 3x3 (18 second instructions) by hash: harness only, compared with the default-pool hash
+    hash_threads = []
+    for a in (["3 3 1 2", "3 3 0 1"] if tier == "thorough" else ["3 3 1 2"]):
+        idx[("treehash", a)] = idx.get(("treehash", a), None)
+        if idx[("treehash", a)] is None:
+            idx[("treehash", a)] = len(lines)
+            lines.append(f"treehash {a}")
+        for t in range(1, 17):
+            hash_threads.append((a, f"treethreadshash {t} {a}"))
     all_lines = lines + th_lines
     impl = core.run_harness(all_lines, seq=True)       # one case at a time: each case uses the whole pool itself
     model = core.run_driver(all_lines)
@@ -93,6 +109,12 @@ def check(rep, tier, seed, replay):
         if out != base:
             rep.violation("oracle", {"case": tl, "why": "emitted programs depend on the number of worker threads",
                                      "emitted": out.count(";") + 1, "with_default_pool": base.count(";") + 1})
+    ho = core.run_harness([l for _, l in hash_threads], seq=True)
+    for (a, l), out in zip(hash_threads, ho):
+        base = impl[idx[("treehash", a)]]
+        if out != base:
+            rep.violation("oracle", {"case": l, "why": "emitted programs depend on the number of worker threads (count / hash of the harvest differ)",
+                                     "with_this_pool": out, "with_default_pool": base})
     for m in mism[:50]:
         rep.violation("correspondence", {k: v[:600] for k, v in m.items()}, found_input=False)
     rep.add_counts(len(all_lines), len(distinct))
@@ -106,7 +128,7 @@ def check(rep, tier, seed, replay):
     rep.cov["configurations"] = len(cfgs)
     rep.cov["configurations_compared_with_reference"] = ref_checked
     rep.cov["programs_emitted_total"] = progs_total
-    rep.cov["thread_runs"] = len(th_lines)
+    rep.cov["thread_runs"] = len(th_lines) + len(hash_threads)
     rep.cov["correspondence_mismatches"] = len(mism)
     rep.assumptions.append("mutual exclusion of the harvester's push is Rust's Mutex (trusted); schedule independence is explored over thread counts, not proved of the runtime")
     import os
